@@ -103,3 +103,6 @@ def run(ctx):
                     armed = False
         ctx.ob("R16.1", b, "one-pull-per-true-guard", not bad and npush > 0, d_loc(b), "push events %d; unguarded: %s" % (npush, ev_str(bad[0]) if bad else "-"))
     ctx.floor("R16.1", "ordered-adapters", n, 2)
+    import c15
+    c15.r15_3(ctx, R, counter)
+    ctx.rule("R15.3", "see C15 R15.3 (shared link): len() of the ordered collection is running + parked; observers agree")
